@@ -38,6 +38,17 @@ def requests(ctx, per_mode):
             out.append((ub2, vals, hkl, 1.0, P, tr)); k += 1
             if k >= per_mode:
                 break
+        # positions with some axes at exactly 0 / 90 / 180 (4-circle sub-geometries included) that are still regular points of the mode
+        # (bisect modes excepted: their regularity is judged by construction from a generic position, not by the Jacobian)
+        for _ in range(per_mode * 2 if "bisect" not in tr else 0):
+            r = PL.construct_request(ctx.rng, ub, tr, P0=PL.semi_special_position(ctx.rng))
+            if r is None:
+                continue
+            ub2, vals, hkl, P = r
+            if not PL.regular(ub2, tr, P):
+                continue
+            out.append((ub2, vals, hkl, 1.0, P, tr))
+            break
     return out
 
 
